@@ -385,4 +385,6 @@ def find_flatteners(model: Model, rep: Report) -> set:
                 pending.remove(fn)
     for q, (ok, why, fn) in sorted(verdicts.items()):
         (rep.proven if ok else rep.refuted)("R10.1", construct(fn, "multiset-preserving"), "" if ok else why, loc(fn))
-    return names
+    # only the (verified or refuted) flatteners stand for their meaning in the branch comparison; any other helper of the module -- a shared
+    # short-cut, a named sort key -- is read through like the code it was extracted from
+    return (set(FLATTENERS) | set(verdicts)) & names
